@@ -1,7 +1,7 @@
 """Known-finding predicates for C03 (block-layout transparency)."""
 from sfmon.findings import predicate
 
-_WIDENING_OPS = {'fillna', 'fillna_leading', 'fillna_trailing_axis1', 'fillna_forward', 'fillna_backward', 'astype_all',
+_WIDENING_OPS = {'fillna', 'fillna_leading', 'fillna_trailing', 'fillna_leading_axis1', 'fillna_trailing_axis1', 'fillna_forward', 'fillna_backward', 'astype_all',
                  'astype_cols', 'via_str', 'binop_scalar', 'binop_array', 'assign_bloc', 'assign_scalar', 'assign_column_array'}
 
 
